@@ -84,7 +84,7 @@ func busWrite(s *emulator.System, a uint32, v byte) (served bool) {
 
 // C11: exhaustive toggle/write sweep of the emulated System's bus against the LoROM mapper.
 func C11(r *vf.Run) {
-	r.Rule = "all 2^24 bus addresses: where the emulator serves the address and lorom.BusAddressToPak maps it, a read must follow the designated ROM/SRAM/WRAM cell through two different values (toggle test) and a write must change exactly that cell (full shadow diff of the three arrays after every bank); thorough repeats with three fills and in descending order; a cell is (memory class, bank group, read|write)"
+	r.Rule = "all 2^24 bus addresses: where the emulator serves the address and lorom.BusAddressToPak maps it, a read must follow the designated ROM/SRAM/WRAM cell through two different values (toggle test) and a write must change exactly that cell (full shadow diff of the three arrays after every bank); thorough repeats with three fills and in descending order; plus random-order sequences mixing EaRead, EaWrite and EaRead24_wrap with block locality; a cell is (memory class, bank group, read|write)"
 	r.Exhaustive = true
 	r.Assume = []string{"an address is 'served' when System.Bus.EaRead does not panic", "SRAM cells beyond len(System.SRAM) do not exist; such addresses are judged only if the emulator serves them"}
 
@@ -183,11 +183,137 @@ func C11(r *vf.Run) {
 			r.MergeCells(cells)
 		})
 	}
+	if r.Phase("interleaved-access") {
+		// random-order sequences mixing EaRead, EaWrite and EaRead24_wrap with locality (the next
+		// access often lands in the 16-byte block touched last), every byte checked against the
+		// designated cell: catches state the bus keeps between accesses
+		chunks := r.N(16, 640)
+		r.Parallel(workers, chunks, func(w, ci int) {
+			g := r.Rand("inter").Fork(uint64(ci))
+			h, err := newSysShadow(g)
+			if err != nil {
+				r.Fail("create-emulator", err.Error(), nil)
+				return
+			}
+			cells := map[string]int64{}
+			pick := func() uint32 {
+				for {
+					var a uint32
+					switch g.Intn(6) {
+					case 0:
+						a = uint32(g.Intn(0x40))<<16 | uint32(g.Intn(0x2000)) // WRAM mirror
+					case 1:
+						a = 0x7E0000 + uint32(g.Intn(0x20000))
+					case 2:
+						a = uint32(0x70+g.Intn(2))<<16 | uint32(g.Intn(0x8000)) // SRAM
+					case 3:
+						a = uint32(0x80+g.Intn(0x40))<<16 | uint32(0x8000+g.Intn(0x8000))
+					default:
+						a = uint32(g.Intn(0x40))<<16 | uint32(0x8000+g.Intn(0x8000))
+					}
+					if _, err := lorom.BusAddressToPak(a); err == nil {
+						return a
+					}
+				}
+			}
+			// which 16-byte blocks the emulator serves: probed once up front, because a probing read
+			// in the middle of a sequence would itself change the state the bus keeps between accesses
+			served := make([]bool, 1<<20)
+			for blk := range served {
+				_, served[blk] = busRead(h.s, uint32(blk)<<4)
+			}
+			cellOf := func(a uint32) (string, []byte, []byte, int, bool) {
+				p, err := lorom.BusAddressToPak(a)
+				if err != nil || !served[a>>4] {
+					return "", nil, nil, 0, false
+				}
+				return h.cell(p)
+			}
+			last := pick()
+			var hist []string
+			for step := 0; step < r.N(4000, 20000) && !r.TooMany(); step++ {
+				a := pick()
+				if g.Bool() { // stay in (or next to) the block touched last
+					a = last&^15 | uint32(g.Intn(16))
+					if g.Intn(4) == 0 {
+						a += 16
+					}
+				}
+				op := g.Intn(4)
+				if len(hist) > 6 {
+					hist = hist[1:]
+				}
+				switch op {
+				case 0, 1:
+					cls, live, _, idx, ok := cellOf(a)
+					if !ok {
+						continue
+					}
+					v, _ := busRead(h.s, a)
+					hist = append(hist, fmt.Sprintf("EaRead($%06x)", a))
+					if v != live[idx] {
+						r.Fail("interleaved-read-"+cls, fmt.Sprintf("after %v: EaRead($%06x)=%02x but %s[$%x]=%02x", hist, a, v, cls, idx, live[idx]), nil)
+						return
+					}
+					cells["inter:read:"+cls]++
+					last = a
+				case 2:
+					cls, live, shadow, idx, ok := cellOf(a)
+					if !ok {
+						continue
+					}
+					nv := live[idx] ^ byte(1+g.Intn(255))
+					busWrite(h.s, a, nv)
+					hist = append(hist, fmt.Sprintf("EaWrite($%06x,%02x)", a, nv))
+					if live[idx] != nv {
+						r.Fail("interleaved-write-"+cls, fmt.Sprintf("after %v: %s[$%x] is %02x, not the written %02x; first changed cell: %s", hist, cls, idx, live[idx], nv, h.diff()), nil)
+						return
+					}
+					shadow[idx] = nv
+					if d := h.diff(); d != "" {
+						r.Fail("interleaved-stray-write", fmt.Sprintf("after %v: a cell other than the designated one changed: %s", hist, d), nil)
+						return
+					}
+					cells["inter:write:"+cls]++
+					last = a
+				default:
+					bank, off := byte(a>>16), uint16(a)
+					var want [3]byte
+					okAll := true
+					for k := 0; k < 3; k++ {
+						_, live, _, idx, ok := cellOf(uint32(bank)<<16 | uint32(off+uint16(k)))
+						if !ok {
+							okAll = false
+							break
+						}
+						want[k] = live[idx]
+					}
+					if !okAll {
+						continue
+					}
+					var v uint32
+					if pan := vf.Try(func() { v = h.s.Bus.EaRead24_wrap(bank, off) }); pan != nil {
+						r.Fail("interleaved-read24-panics", fmt.Sprintf("EaRead24_wrap($%02x,$%04x) over served addresses panicked: %v", bank, off, pan), nil)
+						return
+					}
+					hist = append(hist, fmt.Sprintf("EaRead24_wrap($%02x,$%04x)", bank, off))
+					if v != uint32(want[0])|uint32(want[1])<<8|uint32(want[2])<<16 {
+						r.Fail("interleaved-read24", fmt.Sprintf("after %v: EaRead24_wrap=$%06x, designated cells hold %02x %02x %02x", hist, v, want[0], want[1], want[2]), nil)
+						return
+					}
+					cells["inter:read24"]++
+					last = uint32(bank)<<16 | uint32(off+2)
+				}
+			}
+			r.Eval(int64(r.N(4000, 20000)))
+			r.MergeCells(cells)
+		})
+	}
 	r.Sample(map[string]interface{}{"bus": "$808000", "pak": "$000000", "expect": "System.ROM[0]"})
 	r.Sample(map[string]interface{}{"bus": "$f00000", "pak": "$e00000", "expect": "System.SRAM[0]"})
 	r.Sample(map[string]interface{}{"bus": "$001fff", "pak": "$f51fff", "expect": "System.WRAM[0x1fff]"})
 	if r.OnlyPhase == "" {
-		for _, c := range []string{"read:rom:00", "read:rom:80", "read:rom:b0", "read:sram:70", "read:sram:f0", "read:wram:70", "read:wram:00", "read:wram:80", "write:rom:30", "write:sram:f0", "write:wram:70"} {
+		for _, c := range []string{"read:rom:00", "read:rom:80", "read:rom:b0", "read:sram:70", "read:sram:f0", "read:wram:70", "read:wram:00", "read:wram:80", "write:rom:30", "write:sram:f0", "write:wram:70", "inter:read24", "inter:read:wram", "inter:write:rom", "inter:read:sram"} {
 			r.Require(c)
 		}
 	}
